@@ -17,6 +17,10 @@ LEVEL = {
  "C10": ("proof", "InitiateTokenDeposit: bridge must exist, returned sequence is the stored next (1 if absent) and is bumped by one, one event whose fields equal the request and the moved coins, token pair written once with the derived L2 denom; CreateBridge pre-records nothing under the new id", "DESIGN.md §7 C10"),
  "C11": ("proof", "ProposeOutput only at the next index with a higher L2 block number, recording block height/time; DeleteOutput removes exactly the non-final suffix [i,next) and rolls the counter back to i (quantified loop invariant, no bound)", "DESIGN.md §7 C11"),
  "C12": ("proof", "for every permissioned handler the success path implies that the declared signer holds the role in the pre-state; ExecuteMessages is admin-only, carries only authority-signed messages (loop invariant) and is all-or-nothing (branched store model); SetBridgeInfo never re-points the binding", "DESIGN.md §7 C12"),
+ "C13": ("proof", "validator-set handlers and the end-block update (ApplyAndReturnValidatorSetUpdates, with quantified loop invariants over the stored validator map, the Go map of last powers iterated in an arbitrary order, and the sorted removal list) are proved to keep state consistent: last powers are exactly the positive-power validators, zero-power records are gone after the block, capacity and key index respected, no negative power in a batch", "DESIGN.md §7 C13"),
+ "C14": ("proof", "plan registration rejects malformed plans without side effects; at the planned height EndBlocker leaves exactly the plan's validator bonded in L2 state and replaces the executor list; proved through the contracts of ChangeExecutor (store walk with invariant) and the end-block update", "DESIGN.md §7 C14"),
+ "C19": ("proof", "channel-permission hooks: every admin cell that changes was fresh (next send sequence 1) and unowned, or belongs to a listed channel whose bridge's challenger changes; unparsable metadata touches nothing; hook failure fails the handler; loops over listed channels cut with invariants", "DESIGN.md §7 C19"),
+ "C20": ("proof", "redundant-relay filter proved with a semantic loop invariant linking the stale/fresh counters to the L2 sequence actually consumed; system and free lane match conditions; fee checker proved over assumed contracts of the two coin-arithmetic helpers (stated in the evidence)", "DESIGN.md §7 C20"),
  "C17": ("proof", "leaf, node, root-from-proofs, output root, L2 denom and bridge address are proved equal to spec functions transcribed from the published formats, and proved not to write into caller-visible byte memory (slice model with capacity)", "DESIGN.md §7 C17"),
 }
 checks = []
